@@ -49,12 +49,12 @@ def args_nontrivial(evs):
     outs = {e.get("out") for e in evs if e["e"] in ("Arg", "NanItem")}
     return "ok" in outs and ("invalid_argument" in outs or evs[0].get("group") == "nan-items")
 
-X_ARGS_GROUPS = ["distinct", "quantiles", "frequency", "filters", "sampling", "nan"]
+X_ARGS_GROUPS = ["distinct", "quantiles", "frequency", "filters", "sampling", "nan", "calls"]
 X_ARGS_JOB = job("x_args",
     harness="x_args_rec", inc=None, spec="TraceXArgs", owners=["X02"], rec_timeout=300,
-    files={Q: 6, T: 18}, par=6,
+    files={Q: 7, T: 21}, par=7,
     # one file per family group, so that a defect of one family does not hide the others
-    args=lambda tier, seed, k, profile: ["--seed", seed, "--extra", 3 if tier == Q else 12, "--group", X_ARGS_GROUPS[k % 6]],
+    args=lambda tier, seed, k, profile: ["--seed", seed, "--extra", 3 if tier == Q else 12, "--group", X_ARGS_GROUPS[k % 7]],
     nontrivial=args_nontrivial,
 )
 X_ARGS_MC = [dict(module="MC_XArgs", cfg="MC_XArgs.cfg", workers=4)]
@@ -64,10 +64,15 @@ X_ARGS_NEG = ["MC_XArgs_neg_req.cfg", "MC_XArgs_neg_countmin.cfg", "MC_XArgs_neg
       "MC: the validation logic of every constructor / builder / weighted update (transcribed per site, with the proposed repairs) against the "
       "documented table XArgs!Zone over a grid of 3.5k arguments containing every boundary, one step outside and the extremes of the parameter "
       "types; the logic of the pinned tree for req k, count-min shape and NaN probabilities is rejected (negative configurations); "
-      "traces: 28 sites (theta / theta-union / tuple / tuple-union / array-of-doubles lg_k and p, hll / hll-union lg_k, cpc / cpc-union lg_k, kll / req / "
+      "traces: 39 sites (theta / theta-union / tuple / tuple-union / array-of-doubles lg_k and p, hll / hll-union lg_k, cpc / cpc-union lg_k, kll / req / "
       "quantiles / tdigest / density k, frequent-items sizes and weights, count-min shape, bloom by_size / by_accuracy, var_opt / var_opt_union / ebpps k and "
       "weights) called on the real classes in forked children at those arguments: valid => accepted and the getter reports the value, invalid => "
-      "std::invalid_argument and the object unchanged, never a crash, also when the accepted object is used; NaN items of kll/req/quantiles/tdigest "
+      "std::invalid_argument and the object unchanged, never a crash, also when the accepted object is used; plus the checks behind the constructors "
+      "(group 'calls'): number of std devs of hll / hll_union / cpc bounds, cpc_union::update with a sketch of another seed (refused, union unchanged), "
+      "tdigest get_CDF / get_PMF split points (NaN anywhere, repeated, decreasing), Bloom initialize_by_size / by_accuracy with a memory block from 33 bytes "
+      "short to 64 bytes long (nothing written past the block), wrap / deserialize of a null pointer, get_serialized_size_bytes(0), suggest_num_hashes(n, m) "
+      "with too many bits, theta_intersection given a hand-corrupted image (duplicate hash / zero hash, first / second operand, ordered / unordered, "
+      "deserialized / wrapped: what it can see is refused and the intersection stays usable); NaN items of kll/req/quantiles/tdigest "
       "are ignored or refused, never counted. A segment (family group) is non-trivial when it has accepted and refused calls",
       ["ranges are taken from header comments, public constants and - where the header is silent - the rule stated in the library's own exception text",
        "where the documentation says 'must' without promising a refusal, or is inconsistent (hll_union 4..6, req k outside [4,1024], density dim 0, "
